@@ -18,13 +18,23 @@ type coreSeenT struct {
 	resolved map[string]string // market uid -> frozen "status|winners|ts"
 	betSeen  map[string]bool
 	request  map[string]sdkmath.Int // bet uid -> requested stake (amount on the message minus the bet fee)
+	charged  map[string]sdkmath.Int // bet uid -> what the wager message debited from the bettor
+	due      map[string]*settleDue  // resolved market uid -> settlement deadline in end-blocks
+	ebCount  int
+}
+
+// settleDue: C05 bound for one resolved market
+type settleDue struct {
+	resolvedAtEB int
+	bound        int
+	done         bool
 }
 
 var coreSeen coreSeenT
 
 func coreReset(h int) {
 	if coreSeen.h != h || coreSeen.reported == nil {
-		coreSeen = coreSeenT{h: h, reported: map[string]bool{}, resolved: map[string]string{}, betSeen: map[string]bool{}, request: map[string]sdkmath.Int{}}
+		coreSeen = coreSeenT{h: h, reported: map[string]bool{}, resolved: map[string]string{}, betSeen: map[string]bool{}, request: map[string]sdkmath.Int{}, charged: map[string]sdkmath.Int{}, due: map[string]*settleDue{}}
 	}
 }
 
@@ -107,6 +117,9 @@ func coreMonitors(out *Out, h int, e *Env, ix *coreIx, d *coreDump, markets []*c
 				cls = "zero-part-bet"
 			}
 			failOnce(out, h, "C03", "recorded_eq_taken", cls, b.UID, fmt.Sprintf("bet %d recorded stake %s, sum of parts %s (odds %s)", uidN(b.UID), b.Amount, sumBet, b.OddsValue))
+		}
+		if ch, ok := coreSeen.charged[b.UID]; ok && !ch.Equal(b.Fee.Add(sumBet)) {
+			failOnce(out, h, "C03", "charged_eq_fee_plus_stake", "wager", b.UID, fmt.Sprintf("bet %d: bettor debited %s at placement, fee %s + stake taken %s", uidN(b.UID), ch, b.Fee, sumBet))
 		}
 		req, okReq := coreSeen.request[b.UID]
 		if !okReq {
@@ -420,7 +433,8 @@ func endBlockMonitors(out *Out, h int, e *Env, ix *coreIx, pre, post *coreDump, 
 		nParts++
 		m := mById[p.OrderBookUID]
 		due := pp.Liquidity
-		stake := false
+		stake := false // "received any stake": the stakes of the parts it backed do not add up to zero
+		stakeSum := sdkmath.ZeroInt()
 		if m.Status == markettypes.MarketStatus_MARKET_STATUS_RESULT_DECLARED {
 			for _, b := range post.bets {
 				if b.MarketUID != p.OrderBookUID {
@@ -436,7 +450,7 @@ func endBlockMonitors(out *Out, h int, e *Env, ix *coreIx, pre, post *coreDump, 
 					if f.ParticipationIndex != p.Index {
 						continue
 					}
-					stake = true
+					stakeSum = stakeSum.Add(f.BetAmount)
 					if won {
 						due = due.Sub(f.PayoutProfit)
 					} else {
@@ -450,6 +464,7 @@ func endBlockMonitors(out *Out, h int, e *Env, ix *coreIx, pre, post *coreDump, 
 					failOnce(out, h, "C04", "paid_after_bets", "ordering", fmt.Sprintf("%s/%d", p.OrderBookUID, p.Index), fmt.Sprintf("participation %d of market %d paid while bet %d is unsettled", p.Index, uidN(p.OrderBookUID), uidN(b.UID)))
 				}
 			}
+			stake = !stakeSum.IsZero()
 		} else {
 			stake = false
 		}
@@ -645,4 +660,93 @@ func depositMonitor(out *Out, h int, e *Env, ix *coreIx, pre housePre, creator, 
 		failOnce(out, h, "C09", "deposit_owner", "deposit", key, fmt.Sprintf("participation created for %s, depositor is %d", p.ParticipantAddress, who))
 	}
 	out.Count("mon.C09.deposit")
+}
+
+
+// noteResolved records, when a market is resolved, the number of end-blocks within which it must be completely
+// settled: ceil(B/N_bet) + ceil(P/N_ob) where B / P are the pending bets / unpaid participations of all markets
+// that are queued for settlement at that moment (FIFO: later resolutions cannot delay it).
+func noteResolved(e *Env, d *coreDump, uid string) {
+	if _, ok := coreSeen.due[uid]; ok {
+		return
+	}
+	queued := map[string]bool{uid: true}
+	for _, m := range e.App.MarketKeeper.GetMarketStats(e.Ctx).ResolvedUnsettled {
+		queued[m] = true
+	}
+	for _, m := range e.App.OrderbookKeeper.GetOrderBookStats(e.Ctx).ResolvedUnsettled {
+		queued[m] = true
+	}
+	B, P := 0, 0
+	for _, b := range d.bets {
+		if queued[b.MarketUID] && b.Status != bettypes.Bet_STATUS_SETTLED {
+			B++
+		}
+	}
+	for _, p := range d.parts {
+		if queued[p.OrderBookUID] && !p.IsSettled {
+			P++
+		}
+	}
+	nb := int(e.App.BetKeeper.GetParams(e.Ctx).BatchSettlementCount)
+	no := int(e.App.OrderbookKeeper.GetParams(e.Ctx).BatchSettlementCount)
+	bound := (B+nb-1)/nb + (P+no-1)/no
+	if bound < 1 {
+		bound = 1
+	}
+	coreSeen.due[uid] = &settleDue{resolvedAtEB: coreSeen.ebCount, bound: bound}
+}
+
+// settleBoundMonitor runs after every end-block: every resolved market must be completely settled (no pending bet,
+// every participation paid, book SETTLED, both queues free of it) within its bound.
+func settleBoundMonitor(out *Out, h int, e *Env, d *coreDump) {
+	coreSeen.ebCount++
+	inQ := map[string]bool{}
+	for _, m := range e.App.MarketKeeper.GetMarketStats(e.Ctx).ResolvedUnsettled {
+		inQ[m] = true
+	}
+	for _, m := range e.App.OrderbookKeeper.GetOrderBookStats(e.Ctx).ResolvedUnsettled {
+		inQ[m] = true
+	}
+	for uid, du := range coreSeen.due {
+		if du.done {
+			continue
+		}
+		settled := !inQ[uid]
+		what := "still queued"
+		for _, b := range d.bets {
+			if b.MarketUID == uid && b.Status != bettypes.Bet_STATUS_SETTLED {
+				settled, what = false, fmt.Sprintf("bet %d pending", uidN(b.UID))
+			}
+		}
+		for _, p := range d.parts {
+			if p.OrderBookUID == uid && !p.IsSettled {
+				settled, what = false, fmt.Sprintf("participation %d unpaid", p.Index)
+			}
+		}
+		for _, bk := range d.books {
+			if bk.UID == uid && bk.Status != obtypes.OrderBookStatus_ORDER_BOOK_STATUS_STATUS_SETTLED {
+				settled = false
+			}
+		}
+		if settled {
+			du.done = true
+			out.Count("mon.C05.settled_within_bound")
+			continue
+		}
+		if coreSeen.ebCount-du.resolvedAtEB > du.bound {
+			cls := "not-settled-within-bound"
+			bookSettled := false
+			for _, bk := range d.books {
+				if bk.UID == uid && bk.Status == obtypes.OrderBookStatus_ORDER_BOOK_STATUS_STATUS_SETTLED {
+					bookSettled = true
+				}
+			}
+			if bookSettled {
+				cls = "book-settled-with-unpaid-participation-or-pending-bet"
+			}
+			failOnce(out, h, "C05", "settles_within", cls, uid, fmt.Sprintf("market %d not completely settled %d end-blocks after its resolution (bound %d): %s", uidN(uid), coreSeen.ebCount-du.resolvedAtEB, du.bound, what))
+			du.done = true
+		}
+	}
 }
